@@ -385,6 +385,42 @@ def r18_9(progK):
     return r
 
 
+def r18_10(prog):
+    """Encoder and decoder of one syntax agree on whether alternatives are renumbered.  The PER codecs of CHOICE write the
+    *canonical* index (specs->to_canonical_order[]) and read it back through from_canonical_order[]; the open type codecs
+    use the object-set row, i.e. the declaration index, on both sides.  For every (encoder, decoder) pair of the runtime
+    (`<T>_encode_<syntax>` with `<T>_decode_<syntax>`, and OPEN_TYPE_encode_uper with OPEN_TYPE_uper_get): the encoder
+    reads to_canonical_order if and only if the decoder reads from_canonical_order."""
+    r = Rule("R18.10", "an encoder maps the alternative index through to_canonical_order exactly when its decoder maps it back through from_canonical_order", floor=20)
+    import re as _re
+    byname = {f.name: f for f in prog.funcs.values()}
+
+    def reads(f, field):
+        return any(n[0] == "member" and n[2] == field for b, l, t in f.all_trees() for n in walk(t))
+    pairs = []
+    for name, f in sorted(byname.items()):
+        m = _re.match(r"^(.*)_encode_(uper|oer|der|xer)$", name)
+        if not m:
+            continue
+        base, syn = m.group(1), m.group(2)
+        dec = {"der": "ber"}.get(syn, syn)
+        for cand in ("%s_decode_%s" % (base, dec), "%s_%s_get" % (base, dec)):
+            if cand in byname:
+                pairs.append((f, byname[cand]))
+                break
+    for enc, dec in pairs:
+        e_ = reads(enc, "to_canonical_order")
+        d_ = reads(dec, "from_canonical_order")
+        key = "%s/%s" % (enc.name, dec.name)
+        if e_ == d_:
+            r.ok(enc, key, "both sides %s the canonical order maps" % ("use" if e_ else "leave alone"), enc.line, nontrivial=e_)
+        else:
+            r.bad(enc, key, "%s %s the alternative index through to_canonical_order while %s %s from_canonical_order: what one side "
+                            "writes the other reads as a different alternative whenever the map is not the identity" % (
+                                enc.name, "maps" if e_ else "does not map", dec.name, "maps it back through" if d_ else "does not use"), enc.line)
+    return r
+
+
 def run(ctx):
     from . import c13
     # R18.4: the holder and the selected alternative are members like any other: their storage is interpreted according to
@@ -402,7 +438,7 @@ def run(ctx):
     from . import c10
     r7 = c10.r10_10(ctx.prog("K"), load_tables("c10"), rid="R18.7", floor=8,
                     only=lambda f: "ioc" in f.name.lower() or "type_selector" in f.name or "_ioc" in f.relfile)
-    return run_config(ctx.prog("S"), "default") + [r18_2(ctx.prog("K")), r18_3(ctx.prog("S")), r4, r5, r6, r7, r18_8(ctx.prog("K")), r18_9(ctx.prog("K"))]
+    return run_config(ctx.prog("S"), "default") + [r18_2(ctx.prog("K")), r18_3(ctx.prog("S")), r4, r5, r6, r7, r18_8(ctx.prog("K")), r18_9(ctx.prog("K")), r18_10(ctx.prog("S"))]
 
 
 def thorough(ctx):
